@@ -2,6 +2,7 @@
 """(re)generate /verif/MANIFEST.json from the table below; properties without a check go to not_applicable"""
 import json
 CL = 'suite `clone`: wrapper histories with dill round-trips inserted; the copy must equal the original at the round-trip (info, cache, archive, parked archive, configuration) and then continue exactly as Lean model M3 predicts for the original; independence of the original checked after every later operation'
+KS = 'suite `keys`: generated programs (def sources) wrapped as function / bound method / function given its instance / callable instance / partial, ignore specs over names, indices, *, **, self, calls incl. invalid ones; `_keygen`, all keymap classes x flat x typed x sentinel and CPython\'s own binding are compared with Lean model M4; monitors on respelled (C09), mutated-unselected (C10) and mutated-selected (C11) call pairs'
 props = [json.loads(l) for l in open('/verif/properties.jsonl')]
 W = 'suite `wrapper`: seeded histories on all 12 decorator classes x maxsize x purge x 10 backends x 8 keymaps, compared with Lean model M3 on the property projection'
 CLAIMED = {
@@ -17,6 +18,12 @@ CLAIMED = {
          'no_cache with pre-populated un-archived entries (F26) excluded by hypothesis and listed', '5 C07'),
  'C08': ('Klepto.C08: equational laws of model M2 pointwise in the key: dict ops frame, dump = arch+mem (keyed: only listed resident keys), load = mem+arch (keyed: only listed archived keys), sync / sync(clear), off parks the archive and makes dump/load/sync no-ops, off;on = id, null archive stays empty; suite `cache`: a bare klepto.archives.cache over dict/file/dir/sqlite/null archives, random interleavings incl. direct archive mutation, open/drop/archive=, compared with the model on (exception, mem, archive, parked archive, archived())',
          'the archive contents are read through __asdict__/items of the real backend; backend fidelity itself is C03', '5 C08'),
+ 'C09': ('Klepto.C09 + Klepto.Keys lemmas: _keygen computes CPython\'s binding (keygen_eq_bind), sorted items are canonical, hence calls that bind identically get the same flat key under every keymap (typed, sentinel); non-flat raw keys equal as Python values; ' + KS,
+         'proved for plain functions without ignore (partials / methods / ignore are covered by the correspondence suite and by C11\'s plan-generic theorem); non-flat encoded keys leak keyword order (F11) and ignore=** (F14) are listed findings; encoders are parameters', '5 C09'),
+ 'C10': ('Klepto.C10: the flat key determines the bound arguments for signatures without *args (typed or not, sentinel or not), sentinel split lemma, non-flat injectivity, lift through injective encoders; ' + KS,
+         'injectivity of repr/pickle/digest on the value universe is assumed (DESIGN 7); typed separation of ==-equal values is decided by the suite (the model interns objects up to (type, repr))', '5 C10'),
+ 'C11': ('Klepto.C11: for ANY ignore plan (any callable kind, any ignore specification) calls that agree outside the hidden positions/names have the same _keygen result; unselected positionals and named parameters keep their values in the key; ' + KS,
+         'ignore=** hides more than the property allows (keyword-only parameters): listed finding F14', '5 C11'),
  'C15': ('Klepto.C15: counters move by exactly the classified event on every path; ghost-account theorem over all histories; completed iff counted; info/clear; ' + W,
          'mru IndexError (F2) excluded from completed-iff-counted', '5 C15'),
  'C16': ('Klepto.C16: a raising miss is literally a no-op with one evaluation; safe key failures evaluate once and return; single evaluation always; ' + W,
